@@ -186,19 +186,8 @@ OutcomeChecks(ln, why) ==
 Res(g2, c, evs) == [g |-> g2, c |-> c, evs |-> evs, skip |-> FALSE]
 Skip(g2) == [g |-> g2, c |-> <<>>, evs |-> {}, skip |-> TRUE]
 
-LockWhy(w) == IF Locked(w) THEN "locked" ELSE ""
-
-First(whys) == LET nz == SelectSeq(whys, LAMBDA x : x # "") IN IF nz = <<>> THEN "" ELSE nz[1]
-
 ---------------------------------------------------------------------------
 (* Held queries *)
-
-OpenHeld(w, order, pend) ==
-    [w EXCEPT !.open = [q \in DOMAIN w.open \cup {w.nq} |->
-                            IF q = w.nq THEN [order |-> order, pos |-> 0, pend |-> pend] ELSE w.open[q]],
-              !.nq = @ + 1]
-
-CloseHeld(w, q) == [w EXCEPT !.open = [x \in DOMAIN w.open \ {q} |-> w.open[x]]]
 
 QInfoChecks(S, qi, prop) ==
     << Chk(prop, "held-query-entities", qi.count = Cardinality(S) /\ Len(qi.at) = qi.count
@@ -211,23 +200,13 @@ EvNewWorld(ln, w) == Res(InitWorld(CfgOf(ln.args)), <<>>, {})
 
 (* Creation.  ids/vals: component list and values; t: target; hasTgt: a     *)
 (* target argument was passed; n: number of entities.                       *)
-CreateWhy(w, a, hasRel, hasTgt, n) ==
-    First(<< IF hasTgt /\ ~hasRel THEN "args" ELSE "",
-             LockWhy(w),
-             IF n < 1 THEN "args" ELSE "",
-             IF hasTgt /\ ~TargetOK(w, a.tgt) THEN "dead-target" ELSE "",
-             IF ~IdsLegal(w, a.ids) THEN "args" ELSE "",
-             IF hasTgt /\ ~(a.rel \in Range(a.ids) /\ a.rel \in w.cfg.rels) THEN "args" ELSE "" >>)
-
 EvCreate(ln, w, hasRel, hasTgt, n, vals, q, hold) ==
     LET a   == ln.args
-        why == CreateWhy(w, a, hasRel, hasTgt, n)
+        why == CreateWhy(w, a.ids, hasRel, a.rel, hasTgt, a.tgt, n)
         hs  == ln.res.handles
-        cs  == Range(a.ids)
-        t   == IF hasTgt THEN a.tgt ELSE Zero
         good == why = "" /\ ~ln.res.panic /\ Len(hs) = n /\ FreshAll(w, hs)
-        w1  == IF good THEN AddEntities(w, hs, cs, ValsFrom(w, a.ids, vals), t) ELSE w
-        cores == IF good THEN { CreateEvent(w1, hs[i], a.ids) : i \in DOMAIN hs } ELSE {}
+        w1  == IF good THEN CreateStep(w, hs, a.ids, vals, hasTgt, a.tgt) ELSE w
+        cores == IF good THEN CreateEvents(w1, hs, a.ids) ELSE {}
         held == good /\ q /\ hold
         w2  == IF held THEN OpenHeld(w1, ln.qinfo.at, cores) ELSE w1
         c0  == OutcomeChecks(ln, why) \o
@@ -251,28 +230,19 @@ EvNewBatch(ln, w) ==
 
 EvRemoveEntity(ln, w) ==
     LET h == ln.args.e
-        why == First(<< LockWhy(w), IF h \notin w.alive THEN "args" ELSE "" >>)
+        why == RemoveWhy(w, h)
         good == why = "" /\ ~ln.res.panic
-    IN Res(IF good THEN DropEntities(w, {h}) ELSE w, OutcomeChecks(ln, why),
+    IN Res(IF good THEN RemoveStep(w, h) ELSE w, OutcomeChecks(ln, why),
            IF good THEN { RemoveEvent(w, h) } ELSE {})
 
 (* Exchange / Assign on one entity. *)
 EvExchangeCore(ln, w, add, rem, vals) ==
     LET a == ln.args
         h == a.e
-        relGiven == a.hasRel /\ a.hasTgt
-        why == First(<< IF a.hasTgt /\ ~a.hasRel THEN "args" ELSE "",
-                        LockWhy(w),
-                        IF h \notin w.alive THEN "args" ELSE "",
-                        IF h \in w.alive /\ relGiven /\ ~TargetOK(w, a.tgt)
-                           /\ ExLegalOn(w, h, add, rem, relGiven, a.rel, Zero) THEN "dead-target" ELSE "",
-                        IF h \in w.alive /\ ~ExLegalOn(w, h, add, rem, relGiven, a.rel, a.tgt) THEN "args" ELSE "" >>)
+        why == ExchangeWhy(w, h, add, rem, a.hasRel, a.rel, a.hasTgt, a.tgt)
         good == why = "" /\ ~ln.res.panic
-        w1 == IF good THEN ExApply(w, {h}, add, rem, relGiven, a.tgt) ELSE w
-        w2 == IF good /\ vals # <<>> THEN SetVals(w1, h, add, vals) ELSE w1
-        noop == add = <<>> /\ rem = <<>>
-    IN Res(w2, OutcomeChecks(ln, why),
-           IF good /\ ~noop THEN { ExchangeEvent(w, w2, h, add, rem) } ELSE {})
+        w2 == IF good THEN ExchangeStep(w, h, add, rem, a.hasRel /\ a.hasTgt, a.tgt, vals) ELSE w
+    IN Res(w2, OutcomeChecks(ln, why), IF good THEN ExchangeEvents(w, w2, h, add, rem) ELSE {})
 
 EvExchange(ln, w) == EvExchangeCore(ln, w, ln.args.add, ln.args.rem, <<>>)
 
@@ -282,22 +252,17 @@ EvAssign(ln, w) ==
     ELSE EvExchangeCore(ln, w, ln.args.ids, <<>>, ln.args.vals)
 
 EvSet(ln, w) ==
-    LET a == ln.args h == a.e
-        why == IF h \in w.alive /\ a.c \in w.comps[h] THEN "" ELSE "args"
+    LET a == ln.args
+        why == SetWhy(w, a.e, a.c)
         good == why = "" /\ ~ln.res.panic
-        w1 == IF good /\ a.c \in w.cfg.sized THEN [w EXCEPT !.vals[h][a.c] = a.v] ELSE w
-    IN Res(w1, OutcomeChecks(ln, why), {})
+    IN Res(IF good THEN SetStep(w, a.e, a.c, a.v) ELSE w, OutcomeChecks(ln, why), {})
 
 EvSetRelation(ln, w) ==
     LET a == ln.args h == a.e
-        why == First(<< LockWhy(w),
-                        IF h \notin w.alive THEN "args" ELSE "",
-                        IF ~TargetOK(w, a.tgt) THEN "dead-target" ELSE "",
-                        IF h \in w.alive /\ ~(a.rel \in w.comps[h] /\ a.rel \in w.cfg.rels) THEN "args" ELSE "" >>)
+        why == SetRelWhy(w, h, a.rel, a.tgt)
         good == why = "" /\ ~ln.res.panic
-        changed == good /\ w.tgt[h] # a.tgt
-        w1 == IF changed THEN [w EXCEPT !.tgt[h] = a.tgt] ELSE w
-    IN Res(w1, OutcomeChecks(ln, why), IF changed THEN { TargetEvent(w, h, a.rel) } ELSE {})
+    IN Res(IF good THEN SetRelStep(w, h, a.tgt) ELSE w, OutcomeChecks(ln, why),
+           IF good THEN SetRelEvents(w, h, a.rel, a.tgt) ELSE {})
 
 (* Batch exchange.  M: the entities matching the filter when the call is made. *)
 EvBatchExchange(ln, w) ==
@@ -305,12 +270,8 @@ EvBatchExchange(ln, w) ==
         f == a.f
         noop == a.add = <<>> /\ a.rem = <<>>
         usable == FilterUsable(w, f)
-        M == IF usable THEN QuerySet(w, f) ELSE {}
-        up == First(<< LockWhy(w),
-                       IF noop /\ a.hasRel THEN "args" ELSE "",
-                       IF ~usable THEN "args" ELSE "",
-                       IF ~noop /\ a.hasRel /\ ~TargetOK(w, a.tgt) THEN "dead-target" ELSE "" >>)
-        allLegal == \A h \in M : ExLegalOn(w, h, a.add, a.rem, a.hasRel, a.rel, a.tgt)
+        M == BatchSet(w, f)
+        up == BatchExUpWhy(w, f, a.add, a.rem, a.hasRel, a.tgt)
     IN
     IF usable /\ OpenRelCase(w, f) THEN Skip(w)
     ELSE IF up # "" THEN Res(w, OutcomeChecks(ln, up), {})
@@ -321,14 +282,14 @@ EvBatchExchange(ln, w) ==
         ELSE Res(w, OutcomeChecks(ln, "") \o
                     (IF a.q THEN (IF ln.res.panic THEN <<>> ELSE PanelChecks(w, {}, ln.panel, "C08"))
                             ELSE << Chk("C08", "batch-count", ln.res.panic \/ ln.res.ret = 0) >>), {})
-    ELSE IF ~allLegal THEN
+    ELSE IF ~BatchExAllLegal(w, M, a.add, a.rem, a.hasRel, a.rel, a.tgt) THEN
         (* Some matching entity makes the call illegal: it must panic; what  *)
         (* was changed before is unspecified for batch calls.                *)
         [g |-> w, c |-> OutcomeChecks(ln, "args"), evs |-> {}, skip |-> TRUE]
     ELSE
         LET good == ~ln.res.panic
-            w1 == IF good THEN ExApply(w, M, a.add, a.rem, a.hasRel, a.tgt) ELSE w
-            cores == IF good THEN { ExchangeEvent(w, w1, h, a.add, a.rem) : h \in M } ELSE {}
+            w1 == IF good THEN BatchExStep(w, M, a.add, a.rem, a.hasRel, a.tgt) ELSE w
+            cores == IF good THEN BatchExEvents(w, w1, M, a.add, a.rem) ELSE {}
             held == good /\ a.q /\ a.hold
             w2 == IF held THEN OpenHeld(w1, ln.qinfo.at, cores) ELSE w1
             cF == IF f.k = "cached" THEN << Chk("C07", "legal-operation-panicked", good) >> ELSE <<>>
@@ -342,20 +303,17 @@ EvBatchSetRelation(ln, w) ==
     LET a == ln.args
         f == a.f
         usable == FilterUsable(w, f)
-        M == IF usable THEN QuerySet(w, f) ELSE {}
-        up == First(<< LockWhy(w),
-                       IF ~TargetOK(w, a.tgt) THEN "dead-target" ELSE "",
-                       IF ~usable THEN "args" ELSE "" >>)
-        allRel == \A h \in M : RelOf(w, w.comps[h]) = a.rel
-        Ch == { h \in M : w.tgt[h] # a.tgt }
+        M == BatchSet(w, f)
+        up == BatchSetRelUpWhy(w, f, a.tgt)
+        Ch == BatchSetRelChanged(w, M, a.tgt)
     IN
     IF usable /\ OpenRelCase(w, f) THEN Skip(w)
     ELSE IF up # "" THEN Res(w, OutcomeChecks(ln, up), {})
-    ELSE IF ~allRel THEN Skip(w)
+    ELSE IF ~BatchSetRelAllRel(w, M, a.rel) THEN Skip(w)
     ELSE
         LET good == ~ln.res.panic
-            w1 == IF good THEN [w EXCEPT !.tgt = [h \in w.alive |-> IF h \in M THEN a.tgt ELSE w.tgt[h]]] ELSE w
-            cores == IF good THEN { TargetEvent(w, h, a.rel) : h \in Ch } ELSE {}
+            w1 == IF good THEN BatchSetRelStep(w, M, a.tgt) ELSE w
+            cores == IF good THEN BatchSetRelEvents(w, M, a.rel, a.tgt) ELSE {}
             held == good /\ a.q /\ a.hold
             w2 == IF held THEN OpenHeld(w1, ln.qinfo.at, cores) ELSE w1
             cF == IF f.k = "cached" THEN << Chk("C07", "legal-operation-panicked", good) >> ELSE <<>>
@@ -368,17 +326,17 @@ EvBatchSetRelation(ln, w) ==
 EvBatchRemove(ln, w) ==
     LET f == ln.args.f
         usable == FilterUsable(w, f)
-        M == IF usable THEN QuerySet(w, f) ELSE {}
-        up == First(<< LockWhy(w), IF ~usable THEN "args" ELSE "" >>)
+        M == BatchSet(w, f)
+        up == BatchRemoveUpWhy(w, f)
     IN
     IF usable /\ OpenRelCase(w, f) THEN Skip(w)
     ELSE IF up # "" THEN Res(w, OutcomeChecks(ln, up), {})
     ELSE
         LET good == ~ln.res.panic
             cF == IF f.k = "cached" THEN << Chk("C07", "legal-operation-panicked", good) >> ELSE <<>>
-        IN Res(IF good THEN DropEntities(w, M) ELSE w,
+        IN Res(IF good THEN BatchRemoveStep(w, M) ELSE w,
                OutcomeChecks(ln, "") \o cF \o << Chk("C08", "batch-count", ~good \/ ln.res.ret = Cardinality(M)) >>,
-               IF good THEN { RemoveEvent(w, h) : h \in M } ELSE {})
+               IF good THEN BatchRemoveEvents(w, M) ELSE {})
 
 EvPanel(ln, w) ==
     LET f == ln.args.f usable == FilterUsable(w, f) IN
@@ -439,8 +397,7 @@ EvUnregister(ln, w) ==
 EvReset(ln, w) ==
     LET why == LockWhy(w)
         good == why = "" /\ ~ln.res.panic
-        w1 == [InitWorld(w.cfg) EXCEPT !.regs = w.regs, !.nq = w.nq]
-    IN Res(IF good THEN w1 ELSE w, OutcomeChecks(ln, why), {})
+    IN Res(IF good THEN ResetStep(w) ELSE w, OutcomeChecks(ln, why), {})
 
 EvRead(ln, w) ==
     LET a == ln.args h == a.e
@@ -460,14 +417,10 @@ EvRead(ln, w) ==
 
 EvRes(ln, w) ==
     LET r == ln.args.r
-        present == r \in DOMAIN w.res
-        why == IF ln.op = "ResAdd" THEN (IF present THEN "args" ELSE "") ELSE (IF present THEN "" ELSE "args")
+        add == ln.op = "ResAdd"
+        why == ResWhy(w, add, r)
         good == why = "" /\ ~ln.res.panic
-        w1 == IF ~good THEN w
-              ELSE IF ln.op = "ResAdd"
-              THEN [w EXCEPT !.res = [x \in DOMAIN w.res \cup {r} |-> IF x = r THEN ln.res.ret ELSE w.res[x]]]
-              ELSE [w EXCEPT !.res = [x \in DOMAIN w.res \ {r} |-> w.res[x]]]
-    IN Res(w1, OutcomeChecks(ln, why), {})
+    IN Res(IF good THEN ResStep(w, add, r, ln.res.ret) ELSE w, OutcomeChecks(ln, why), {})
 
 Eval(ln, w) ==
     CASE ln.op = "NewWorld" -> EvNewWorld(ln, w)
